@@ -381,8 +381,7 @@ def write_evidence_file(prop, tier, seed, results, wall_s, t_run, startup, nwork
             "components": meta.get("components", {}),
             "workers": nworkers,
             "truncated_by_wall_budget": truncated,
-            "known_findings_hit": known_hit,
-            "violating_runs": len(viols),
+            "outcomes": {"known_findings_hit": known_hit, "violating_runs": len(viols)},
             "exhaustive": False,
         },
         "assumptions": meta.get("assumptions", []),
